@@ -57,6 +57,7 @@ ClassWhy(ev) ==
   IF ev.fn \notin Classified THEN "function is not in the XrlAPI table"
   ELSE IF ev.over # 0 THEN "an error was stored over an existing one"
   ELSE IF ev.same # 1 THEN "the call without an error slot returned something else"
+  ELSE IF "rep" \in DOMAIN ev /\ ev.rep # 1 THEN "the same call repeated immediately gave a different outcome (value, error, code or message)"
   ELSE IF ev.slot = "empty" \/ ev.slot = "none" THEN
          (IF SuccessOK(ev.fn, ev.kind, ev.ret) THEN "" ELSE "no error reported but the result is " \o ev.ret \o " (kind " \o KindOf(ev.fn) \o ")")
   ELSE IF ~(ev.code >= 0 /\ ev.code <= 5) THEN "error code outside the enumeration"
